@@ -482,13 +482,12 @@ func (self *SrcParam) format(printer *printer, modeWidth, typeWidth int) {
 	for i := 0; i < typeWidth-len(string(self.Lang)); i++ {
 		printer.mustWriteRune(' ')
 	}
-	printer.mustWriteString(` "`)
-	printer.mustWriteString(self.Path)
-	for _, arg := range self.Args {
-		printer.mustWriteRune(' ')
-		printer.mustWriteString(arg)
-	}
-	printer.mustWriteString("\",\n")
+	printer.mustWriteRune(' ')
+	// Quote the command the same way string literals are quoted, so that
+	// quotes, backslashes and control characters in it survive re-parsing.
+	quoteString(&printer.buf, strings.Join(
+		append([]string{self.Path}, self.Args...), " "))
+	printer.mustWriteString(",\n")
 }
 
 // Callable
